@@ -49,7 +49,7 @@ InitWorld ==
                   THEN [bal |-> [a \in AllAccts |-> 0], supply |-> 0, decimals |-> 6, minter |-> PAIR, allow |-> {}]
                   ELSE [bal |-> [a \in AllAccts |-> StartBal(a)], supply |-> 17, decimals |-> 1, minter |-> "",
                         allow |-> {<<u, PAIR, 200>> : u \in Users}]],
-      pair |-> (PAIR :> [a0 |-> A0, a1 |-> A1, d0 |-> 1, d1 |-> 0, lp |-> LP, commission |-> COMMISSION,
+      pair |-> (PAIR :> [a0 |-> A0, a1 |-> A1, d0 |-> 1, d1 |-> 0, lp |-> LP, self_lp |-> LP, commission |-> COMMISSION,
                          wl |-> {"lp1"}, m0 |-> 2, m1 |-> 1]),
       fac  |-> [addr |-> FAC, owner |-> "own", pair_code |-> 2, token_code |-> 4,
                 native |-> ("ua" :> 1 @@ "ub" :> 0), reg |-> <<>>],
@@ -122,6 +122,10 @@ DonateOps ==
 LpTransferOps ==
     {[op |-> "cw20_transfer", token |-> LP, caller |-> c, dest |-> "attacker", amount |-> a] : c \in {"lp1", "lp2"}, a \in {1, 2}}
 
+\* ... and destroy them (cw20 Burn by the holder): the supply shrinks while the reserves stay
+LpBurnOps ==
+    {[op |-> "cw20_burn", token |-> LP, caller |-> c, amount |-> a] : c \in {"lp1", "lp2"}, a \in {1, 2}}
+
 RogueOps ==
     IF FULL THEN
     {[op |-> "pair_receive", pair |-> PAIR, caller |-> "attacker", sender |-> "attacker", amount |-> 2, hook |-> h, funds |-> <<>>] :
@@ -129,7 +133,7 @@ RogueOps ==
     \cup {[op |-> "pair_update_decimals", pair |-> PAIR, caller |-> "attacker", denom |-> "ua", decimals |-> <<3, 3>>]}
     ELSE {}
 
-Ops == ProvideOps \cup WithdrawOps \cup SwapDirectOps \cup SwapHookOps \cup DonateOps \cup LpTransferOps \cup RogueOps
+Ops == ProvideOps \cup WithdrawOps \cup SwapDirectOps \cup SwapHookOps \cup DonateOps \cup LpTransferOps \cup LpBurnOps \cup RogueOps
 
 Init == w = InitWorld /\ last = NoEv /\ steps = 0 /\ hist = <<>>
 
@@ -139,7 +143,7 @@ FirstOps == {op \in ProvideOps : op.caller = "lp1" /\ op.assets[1].amount >= 2 /
 
 \* in export (simulation) mode the next operation is drawn class-first - a uniform draw over Ops would be
 \* dominated by the provision variants - and only that one successor is generated
-OpClasses == <<ProvideOps, WithdrawOps, SwapDirectOps, SwapHookOps, DonateOps, LpTransferOps, RogueOps, WithdrawOps, SwapDirectOps \cup SwapHookOps>>
+OpClasses == <<ProvideOps, WithdrawOps, SwapDirectOps, SwapHookOps, DonateOps, LpTransferOps, LpBurnOps, RogueOps, WithdrawOps, SwapDirectOps \cup SwapHookOps>>
 DrawOp ==
     IF steps = 0 THEN RandomElement(FirstOps)
     ELSE LET ne == {i \in DOMAIN OpClasses : OpClasses[i] # {}} IN
